@@ -57,3 +57,47 @@ Theorem C02_safe_parser_complete : forall p m,
   msg_wf m -> wfb (serialize p m) -> ix_parse true p (serialize p m) = IxOk (norm_fields p m).
 Proof. exact ix_parse_complete. Qed.
 Print Assumptions C02_safe_parser_complete.
+
+(* ---- the other byte-level readers of peer-controlled data: the same safety statements, proved
+        in their owners' families, collected here because C02 quantifies over all of them ---- *)
+From LibcoapV Require Import Stream.TcpReader Stream.TcpReaderProofs Oscore.Replay Oscore.ReplayProofs
+  Uri.Uri Uri.Split Uri.Spec Uri.SplitProofs Uri.PathProofs Uri.BufProofs Block.RecBlocks
+  Block.RecBlocksProofs.
+
+(* TCP/TLS stream reader (coap_read_session): read_header[8] is never indexed out of bounds and
+   the fuel never runs out, whatever the bytes and however they are cut (C05's model) *)
+Theorem C02_tcp_reader_safe : forall c s p s' evs,
+  tcp_wf c s -> wfb p -> tcp_feed c s p = (s', evs) ->
+  Forall tcp_ev_clean evs.
+Proof. exact tcp_feed_clean. Qed.
+Print Assumptions C02_tcp_reader_safe.
+
+(* OSCORE replay window (oscore_validate_sender_seq, driven by the peer's Partial IV): no shift
+   by 64 or more bits is ever evaluated (C15's model) *)
+Theorem C02_replay_window_shift_safe : forall W b12 h,
+  rp_undef (snd (rp_run rp_fixed W b12 rp_init h)) = false.
+Proof. exact rp_no_undef. Qed.
+Print Assumptions C02_replay_window_shift_safe.
+
+(* URI path / query splitting of a received Proxy-Uri or of application strings: no read
+   outside the length-delimited input, at most buflen bytes written (C16's model) *)
+Theorem C02_uri_split_path_safe : forall s buflen,
+  0 <= buflen ->
+  uri_buf_safe true (uri_raw_path_segs s) buflen (uri_split_path s buflen).
+Proof. exact uri_split_path_safe. Qed.
+Print Assumptions C02_uri_split_path_safe.
+
+Theorem C02_uri_split_query_safe : forall s buflen,
+  0 <= buflen ->
+  uri_buf_safe false (uri_raw_query_items s) buflen (uri_split_query s buflen).
+Proof. exact uri_split_query_safe. Qed.
+Print Assumptions C02_uri_split_query_safe.
+
+(* received-block ranges (update_received_blocks, driven by the peer's Block NUM): the
+   representation invariant - sorted, disjoint, at most COAP_RBLOCK_CNT ranges, i.e. the range
+   array is never indexed outside - is preserved by every update (C09's model) *)
+Theorem C02_received_blocks_safe : forall r n,
+  blk_inv r -> 0 <= n ->
+  forall r', blk_update r n = Some r' -> blk_inv r'.
+Proof. exact blk_update_inv. Qed.
+Print Assumptions C02_received_blocks_safe.
